@@ -8,8 +8,8 @@ LEVEL = 'model_checking'
 def run(tier, t0):
     acc = common.Acc()
     cc.explore('C09', tier, acc)
-    rule = ('BFS over antichains of cells by edit operations remove(x)/split(x) from the bases listed in notes, plus every antichain of <= 4 (quick) / 5 (thorough) cells over a 38-cell menu, exact deduplication on the antichain; every state is given to the real '
-            'compact in sorted, reversed, rotated, interleaved and duplicated order (all permutations for small states) and compared with the set-based reference compaction; '
+    rule = ('BFS over antichains of cells by edit operations remove(x)/split(x) from the bases listed in notes, plus every antichain of <= 4 (quick) / 5 (thorough) cells over a 38-cell menu and the cascade spines listed in notes (sibling staircases that need 1..30 merging passes in one call), exact deduplication on the antichain; every state is given to the real '
+            'compact in sorted, reversed, rotated, interleaved, duplicated and ascending-with-neighbouring-duplicates order (all permutations for small states) and compared with the set-based reference compaction; '
             'non-trivial = states in which at least one sibling group has to merge')
     return common.finish(PID, LEVEL, tier, acc, t0, rule, [
         'reference compaction vf/refmodel.ref_compact on tuple paths; ids via the reference codec (validated against the implementation by C05)',
